@@ -5,6 +5,8 @@ R7.2  response status keys are normalised with str() before the type-checked par
 R7.3  method-name de-duplication is sound (test / rename until unused / record)           [= R20.2 `operation methods`]
 R7.4  tag grouping agreement between EndpointsEmitter.emit and ClientVisitor.visit (all tags, same key function,
       same default tag, same canonical-spelling score, same class/module derivation)
+R7.6  str-enum options (NamingStrategy, HTTPMethod) are compared by value, never by identity: the strategy selected as a plain
+      string is honoured
 R7.5  no filter between grouping and emission: every operation of a tag is visited, every tag yields a file, a
       class entry and an APIClient property
 """
@@ -78,6 +80,29 @@ def run(repo: Repo, rep: Report, tier: str) -> None:
                               "status codes every operation is skipped", po.loc(c))
             else:
                 rep.ok("R7.2", sub, "parse_response accepts any key type", po.loc(c))
+
+    # ---------------------------------------------------------------- R7.6 the selected naming strategy is honoured however it is spelled
+    # NamingStrategy is a `str` enum so that callers can pass "clean" / "path"; comparing it by identity only matches enum members
+    strenums = {c.name for m in repo.modules.values() for c in m.classes.values() if {"str", "Enum"} <= set(c.base_names)}
+    live7 = set(repo.import_closure(["generator.client_generator"]))
+    n_cmp = 0
+    for mn in sorted(live7):
+        mod = repo.modules[mn]
+        for n in ast.walk(mod.tree):
+            if isinstance(n, ast.Compare) and len(n.ops) == 1:
+                sides = [n.left, n.comparators[0]]
+                member = next((x for x in sides if isinstance(x, ast.Attribute) and isinstance(x.value, ast.Name) and x.value.id in strenums and x.attr.isupper()), None)
+                if member is None:
+                    continue
+                n_cmp += 1
+                sub = f"{mod.relpath}:{n.lineno} comparison with {norm(member)}"
+                if isinstance(n.ops[0], (ast.Is, ast.IsNot)):
+                    rep.violation("R7.6", f"{mod.relpath} identity comparison with {norm(member)}", f"{mn}|strenum-identity|{norm(member)}",
+                                  f"`{norm(n)}` compares a str-enum by identity: a caller that selects the strategy by its documented string value "
+                                  f"({member.attr.lower()!r}) matches no branch and the default naming is used silently", f"{mod.relpath}:{n.lineno}")
+                else:
+                    rep.ok("R7.6", f"{mod.relpath} equality comparison with {norm(member)} #{n_cmp}", "compared by value (`==` / `in`): string and enum spellings select the same branch", f"{mod.relpath}:{n.lineno}")
+    rep.count("R7.6:str_enum_comparisons", n_cmp)
 
     # ---------------------------------------------------------------- R7.3
     _dedup_site(repo.func("emitters.endpoints_emitter:EndpointsEmitter._deduplicate_operation_ids_globally"), "operation methods", "seen_methods", _Relabel(rep, "R7.3"))
